@@ -134,7 +134,7 @@ class Client:
 
 
 class FullSim:
-    def __init__(self, sim, deviations=0, with_sessions=True, max_steps=600):
+    def __init__(self, sim, deviations=0, with_sessions=True, max_steps=600, split_jobs=False):
         self.sim = sim
         self.sched = gates.Scheduler(deviations, max_steps)
         self.daemon = GDaemon(self.sched)
@@ -143,6 +143,8 @@ class FullSim:
         self.tasks = {}
         self.errors = []
         self.prepared = {}         # placeholder raw -> RTx
+        self.split_jobs = split_jobs
+        self.stopped = False
 
     # -- construction --------------------------------------------------------------------------
     def start(self):
@@ -156,7 +158,8 @@ class FullSim:
         asyncio.set_event_loop(sched.loop)
         sim._close_db()
         sim.daemon = self.daemon
-        bpmod.run_in_thread = sched.job('bp')
+        bpmod.run_in_thread = sched.job('bp', splittable=self.split_jobs)
+        sim.world.durable.preempt = gates.preempt_point if self.split_jobs else None
         dbmod.run_in_thread = sched.job('db')
         mpmod.run_in_thread = sched.job('mp')
         bpmod.sleep = sched.sleeper('bp.sleep')
@@ -192,19 +195,43 @@ class FullSim:
         async def wait_for_catchup():
             await self.caught_up_event.wait()
             await db.populate_header_merkle_cache()
-            self.tasks['mempool'] = loop.create_task(self.mempool._refresh_hashes(self.mempool_event))
+            if self.with_sessions:
+                self.tasks['mempool'] = loop.create_task(self.mempool._refresh_hashes(self.mempool_event))
 
         async def serve():
             await self.mempool_event.wait()
             await n.start(db.state.height, self.mgr._notify_sessions)
             self.serving = True
             self.tasks['reorgs'] = loop.create_task(self.mgr._handle_chain_reorgs())
+        # Controller.serve: "await daemon.height()" before the tasks are spawned, so that the daemon
+        # has a cached height
+        daemon._cached = len(daemon.chain) - 1
         self.tasks['bp'] = loop.create_task(self.bp.fetch_and_process_blocks(self.caught_up_event,
                                                                              self.shutdown_event))
         self.tasks['catchup'] = loop.create_task(wait_for_catchup())
         if self.with_sessions:
             self.tasks['serve'] = loop.create_task(serve())
         return self
+
+    def shutdown(self):
+        '''What the server does on SIGTERM: set the shutdown event and cancel every task.'''
+        self.stopped = True
+        self.shutdown_event.set()
+        for t in self.tasks.values():
+            t.cancel()
+
+    def finish_shutdown(self):
+        '''FIFO until the block processor's task has returned; then the worker threads that are
+        still running finish (the executor joins them at interpreter exit).'''
+        s = self.sched
+        s.deviations_saved = s.deviations
+        s.run_until(lambda: self.tasks['bp'].done() and s.only_timers_pending(), allow_time=False, limit=2000)
+        s.deviations = 0
+        s.thaw()
+        s.run_until(lambda: all(g.kind == 'time' for g in s.pending), allow_time=False, limit=2000)
+        t = self.tasks['bp']
+        if not t.cancelled() and t.exception() is not None:
+            raise t.exception()
 
     def add_mempool_tx(self, rt):
         self.prepared[b'RAW' + bytes(rt.hash)] = rt
@@ -230,6 +257,8 @@ class FullSim:
 
     # -- progress ------------------------------------------------------------------------------
     def check_tasks(self):
+        if self.stopped:
+            return
         for name, t in self.tasks.items():
             if t.done() and not t.cancelled():
                 e = t.exception()
